@@ -3,8 +3,10 @@
 # run the property's quick check, undo.  Prints the summary.
 w=/tmp/seed_$1; d=/verif/seeded/$2
 mkdir -p $d
-git -C $w diff -- . ':!*verif_contracts.go' > $d/patch.diff
-cp -r $w/demo/. $d/ 2>/dev/null
+if [ -d $w ]; then
+  git -C $w diff -- . ':!*verif_contracts.go' ':!rbs2json' > $d/patch.diff
+  cp -r $w/demo/. $d/ 2>/dev/null
+fi
 rm -f $d/change.patch
 echo "patch: $(grep -c '^[-+][^-+]' $d/patch.diff) changed lines in $(grep -c '^diff' $d/patch.diff) file(s)"
 cd /repo && git apply --check $d/patch.diff || { echo "patch does not apply to /repo HEAD"; exit 2; }
